@@ -210,6 +210,9 @@ struct EnfCase {
     /// tonic client sides only: the caller polls the call once and then stays away this long
     /// before awaiting it (the deadline runs from the call, not from the caller's attention)
     idle_gap_ms: Option<u64>,
+    /// tonic client sides only: the call is polled once where it was made and then moved to another
+    /// task (tokio::spawn), which awaits it: the deadline must wake the task that holds the call NOW
+    move_task: bool,
 }
 
 struct SlowEcho {
@@ -322,6 +325,29 @@ fn enf_run(c: &EnfCase) -> (EnfOutcome, u64) {
                 }
                 let t0 = tokio::time::Instant::now();
                 let r = match c.idle_gap_ms {
+                    None if c.move_task => {
+                        let mut owned = client.clone();
+                        let mut fut: std::pin::Pin<Box<dyn std::future::Future<Output = Result<tonic::Response<Vec<u8>>, tonic::Status>> + Send>> = Box::pin(async move { owned.unary(req).await });
+                        // a few polls from this task, letting the channel's worker run in between, so that
+                        // the request is really under way (and its deadline armed) before the hand-over
+                        let mut first = std::task::Poll::Pending;
+                        for _ in 0..3 {
+                            first = std::future::poll_fn(|cx| std::task::Poll::Ready(fut.as_mut().poll(cx))).await;
+                            if first.is_ready() {
+                                break;
+                            }
+                            tokio::task::yield_now().await;
+                            tokio::task::yield_now().await;
+                        }
+                        match first {
+                            std::task::Poll::Ready(r) => Some(r),
+                            std::task::Poll::Pending => match vnet::within(horizon, tokio::spawn(fut)).await {
+                                None => None,
+                                Some(Ok(r)) => Some(r),
+                                Some(Err(e)) => Some(Err(tonic::Status::unknown(format!("task failed: {e}")))),
+                            },
+                        }
+                    }
                     None => vnet::within(horizon, client.unary(req)).await,
                     Some(gap) => {
                         let fut = client.unary(req);
@@ -456,7 +482,7 @@ fn enf_cases(tier: Tier) -> Vec<EnfCase> {
                     n += 1;
                     let chops: Vec<usize> = if tier == Tier::Thorough { vec![0, 2, 3] } else { vec![[0, 2, 3][n % 3]] };
                     for chop in chops {
-                        out.push(EnfCase { side, malformed: None, caller_ms, configured_ms, latency_ms, chop, prior_caller_ms: None, idle_gap_ms: None });
+                        out.push(EnfCase { side, malformed: None, caller_ms, configured_ms, latency_ms, chop, prior_caller_ms: None, idle_gap_ms: None, move_task: false });
                     }
                 }
             }
@@ -466,11 +492,11 @@ fn enf_cases(tier: Tier) -> Vec<EnfCase> {
     for side in [Side::Server, Side::Client] {
         for configured_ms in [None, Some(50u64)] {
             for latency_ms in [10u64, 300] {
-                out.push(EnfCase { side, malformed: None, caller_ms: Some(0), configured_ms, latency_ms, chop: 0, prior_caller_ms: None, idle_gap_ms: None });
+                out.push(EnfCase { side, malformed: None, caller_ms: Some(0), configured_ms, latency_ms, chop: 0, prior_caller_ms: None, idle_gap_ms: None, move_task: false });
             }
         }
         for latency_ms in [10u64, 300] {
-            out.push(EnfCase { side, malformed: None, caller_ms: Some(200), configured_ms: Some(0), latency_ms, chop: 0, prior_caller_ms: None, idle_gap_ms: None });
+            out.push(EnfCase { side, malformed: None, caller_ms: Some(200), configured_ms: Some(0), latency_ms, chop: 0, prior_caller_ms: None, idle_gap_ms: None, move_task: false });
         }
     }
     // a malformed caller value is ignored: the configured timeout alone decides
@@ -478,7 +504,7 @@ fn enf_cases(tier: Tier) -> Vec<EnfCase> {
         for bad in ["82f", "+5S", "S", "123456789S", "5 S", "1e3m"] {
             for configured_ms in [None, Some(50u64)] {
                 for latency_ms in [10u64, 300] {
-                    out.push(EnfCase { side, malformed: Some(bad), caller_ms: None, configured_ms, latency_ms, chop: 0, prior_caller_ms: None, idle_gap_ms: None });
+                    out.push(EnfCase { side, malformed: Some(bad), caller_ms: None, configured_ms, latency_ms, chop: 0, prior_caller_ms: None, idle_gap_ms: None, move_task: false });
                 }
             }
         }
@@ -492,23 +518,29 @@ fn enf_cases(tier: Tier) -> Vec<EnfCase> {
                         if side == Side::Both && configured_ms.is_some() {
                             continue;
                         }
-                        out.push(EnfCase { side, malformed: None, caller_ms, configured_ms, latency_ms, chop: 0, prior_caller_ms: Some(prior), idle_gap_ms: None });
+                        out.push(EnfCase { side, malformed: None, caller_ms, configured_ms, latency_ms, chop: 0, prior_caller_ms: Some(prior), idle_gap_ms: None, move_task: false });
                     }
                 }
             }
+        }
+    }
+    // a call that is polled once and then handed to another task
+    for (caller_ms, configured_ms) in [(None, Some(50u64)), (Some(50u64), None), (Some(200u64), Some(50u64)), (None, None)] {
+        for latency_ms in [10u64, 100, 300] {
+            out.push(EnfCase { side: Side::Client, malformed: None, caller_ms, configured_ms, latency_ms, chop: 0, prior_caller_ms: None, idle_gap_ms: None, move_task: true });
         }
     }
     // a caller that polls once and then stays away: the deadline runs from the call
     for gap in [30u64, 150, 400] {
         for (caller_ms, configured_ms) in [(None, Some(50u64)), (Some(50u64), None), (Some(200u64), Some(50u64)), (None, None)] {
             for latency_ms in [10u64, 100, 300] {
-                out.push(EnfCase { side: Side::Client, malformed: None, caller_ms, configured_ms, latency_ms, chop: 0, prior_caller_ms: None, idle_gap_ms: Some(gap) });
+                out.push(EnfCase { side: Side::Client, malformed: None, caller_ms, configured_ms, latency_ms, chop: 0, prior_caller_ms: None, idle_gap_ms: Some(gap), move_task: false });
             }
         }
     }
     for caller_ms in [None, Some(50u64), Some(200)] {
         for latency_ms in [10u64, 100, 300] {
-            out.push(EnfCase { side: Side::Both, malformed: None, caller_ms, configured_ms: None, latency_ms, chop: 0, prior_caller_ms: None, idle_gap_ms: None });
+            out.push(EnfCase { side: Side::Both, malformed: None, caller_ms, configured_ms: None, latency_ms, chop: 0, prior_caller_ms: None, idle_gap_ms: None, move_task: false });
         }
     }
     out
@@ -539,7 +571,7 @@ pub fn property(tier: Tier) -> Property {
     let enf = Section::new(
         "enforce",
         Config { hang_secs: 60, ..Default::default() },
-        "cases: the full grid caller timeout {none, 50, 200 ms} x configured timeout {none, 50, 200 ms} x handler latency {10, 100, 300 ms} (off the exact ties) for each side against a NON-tonic peer — Server::timeout driven by a bare hyper HTTP/2 client sending grpc-timeout, and Endpoint::timeout + Request::set_timeout against a bare hyper HTTP/2 server with scripted latency (so that one side's enforcement cannot mask the other's) — plus zero deadlines (caller 0 or configured 0: cut off at t = 0), plus the same with a malformed caller value (82f, +5S, S, 9 digits, '5 S', 1e3m: ignored, the configured timeout alone decides), plus sequences on one channel (an earlier call carrying a 20 / 50 ms deadline must not leak into the judged call), plus callers that poll the call once and then stay away 30 / 150 / 400 ms before awaiting it (the deadline runs from the call), plus a tonic-to-tonic pass for the caller-visible status text; in-memory pipes, paused clock (exact virtual durations); oracle: latency below the shorter deadline => the real answer at t = latency; above => CANCELLED 'Timeout expired' at t = min(caller, configured) (+-2 ms timer granularity). Non-trivial = some deadline is set.",
+        "cases: the full grid caller timeout {none, 50, 200 ms} x configured timeout {none, 50, 200 ms} x handler latency {10, 100, 300 ms} (off the exact ties) for each side against a NON-tonic peer — Server::timeout driven by a bare hyper HTTP/2 client sending grpc-timeout, and Endpoint::timeout + Request::set_timeout against a bare hyper HTTP/2 server with scripted latency (so that one side's enforcement cannot mask the other's) — plus zero deadlines (caller 0 or configured 0: cut off at t = 0), plus the same with a malformed caller value (82f, +5S, S, 9 digits, '5 S', 1e3m: ignored, the configured timeout alone decides), plus sequences on one channel (an earlier call carrying a 20 / 50 ms deadline must not leak into the judged call), plus callers that poll the call once and then stay away 30 / 150 / 400 ms before awaiting it (the deadline runs from the call), plus calls polled once and then moved to another task, plus a tonic-to-tonic pass for the caller-visible status text; in-memory pipes, paused clock (exact virtual durations); oracle: latency below the shorter deadline => the real answer at t = latency; above => CANCELLED 'Timeout expired' at t = min(caller, configured) (+-2 ms timer granularity). Non-trivial = some deadline is set.",
         enf_cases(tier),
         |c: &EnfCase| format!("{c:?}"),
         enf_body,
